@@ -103,6 +103,10 @@ def check(model: Model, rep: Report, tier: str):
     share_rule(rep, model, r7, "C05.K7", "an implicit copy made by repeat() keeps the block's own relative schedule: extend() gives all relation-less heads of "
                "the appended copy ONE chain link, computed before the loop, over all current leaves (= C01.R7); decomposed_operations hands the "
                "block link to exactly the heads")
+    from .c02 import l7
+    share_rule(rep, model, l7, "C05.K8", "nesting a circuit copies it, whichever way it is handed over: add() routes every sub-circuit (a declarative circuit or a bare structure) "
+               "to the copying path add_sub_circuit before the plain-operation case, and that path nests operation.copy(..), not the object (= C02.L7); otherwise the "
+               "parent and the original share one object and a change to either shows in both")
 
 
 # ---------------------------------------------------------------------------------------------
